@@ -207,7 +207,9 @@ def _setup(pid, n):
     # the configuration travels as .thailint.json for odd project ids: the repository-level
     # ignore parser reads only .thailintignore / .thailint.yaml, the orchestrator must do the rest
     carrier = {".thailint.json": __import__("json").dumps(cfg)} if pid % 2 else {".thailint.yaml": yaml_dump(cfg)}
-    root = project({**files, **carrier})
+    # the checkout lives below a directory with an always-excluded NAME (and is addressed by
+    # absolute paths): built-in exclusions are about the path inside the project only
+    root = project({**files, **carrier}, name=("venv/proj" if pid % 2 else "build/proj"))
     paths = [root / p for p in files]
     return root, paths, cfg, list(files)
 
